@@ -290,6 +290,7 @@ type part struct {
 	maxPerReq   int // codes per request
 	maxCodes    int
 	depth       int
+	uris        []string // redirect_uri variants of an exchange (default: right, other, missing)
 	chans       []string // parameter channels of the token request beyond "body": gtq, allq
 	maxFaults   int      // faulted operations per history (0: the alphabet has no faulty operations)
 	kinds       []string // error kinds of an injected storage failure: plain, deadline
@@ -481,6 +482,9 @@ func (p *part) baseOps(s S) []string {
 		}
 	}
 	uris := []string{"right", "other", "missing"}
+	if p.uris != nil {
+		uris = p.uris
+	}
 	for k := 0; k <= len(s.Codes)+1; k++ {
 		kl := "g" // garbage
 		if k > len(s.Codes) {
@@ -1085,10 +1089,11 @@ func TestCheck(t *testing.T) {
 	for router := 0; router < 2; router++ {
 		parts = append(parts, &part{
 			name: rig.Routers[router] + "-fault", router: router,
-			authClients: []string{"web", "pub", "jwt"}, chs: []string{"none", "S256"},
+			authClients: engine.Pick(c, []string{"web", "pub"}, []string{"web", "pub", "jwt"}), chs: []string{"none", "S256"},
 			callers: callersFor("web/right", "web/wrong", "web2", "pub", "jwt/right", "jwt/wrong"),
 			maxReqs: 2, maxAlive: 2, maxPerReq: 2, maxCodes: engine.Pick(c, 2, 3), depth: engine.Pick(c, 6, 7),
 			maxFaults: engine.Pick(c, 1, 2), kinds: kinds,
+			uris: engine.Pick(c, []string{"right", "other"}, nil), // no storage call sits between the parameters and the redirect_uri test
 		})
 	}
 	// parameter channel: grant_type / everything in the URL query instead of the body
